@@ -22,6 +22,16 @@ func is32BitRegister(regName string) bool {
 	}
 }
 
+// is16BitAddrRegister checks if a register name is one of the registers of 16-bit addressing (Table 2-1).
+func is16BitAddrRegister(regName string) bool {
+	switch regName {
+	case "BX", "BP", "SI", "DI":
+		return true
+	default:
+		return false
+	}
+}
+
 // GenerateModRM はエンコーディング情報とビットモードに基づいてModR/Mバイトを生成する
 func GenerateModRM(operands []string, modRM *asmdb.Encoding, bitMode cpu.BitMode) ([]byte, error) { // Keep cpu.BitMode
 	if modRM == nil || modRM.ModRM == nil {
@@ -233,6 +243,9 @@ func ModRMByValue(modeStr string, regValue int, rmOperand string, bitMode cpu.Bi
 // (SIB の値が 0x00 になる [EAX+EAX] などでも省略してはならない)。
 func hasSIB(modrmByte byte, mem *ng_operand.MemoryInfo, bitMode cpu.BitMode) bool {
 	addr32 := bitMode != cpu.MODE_16BIT || is32BitRegister(mem.BaseReg) || is32BitRegister(mem.IndexReg)
+	if is16BitAddrRegister(mem.BaseReg) || is16BitAddrRegister(mem.IndexReg) {
+		addr32 = false // 16-bit addressing (67h in 32-bit mode) has no SIB byte
+	}
 	return addr32 && modrmByte&0b111 == 0b100 && modrmByte>>6 != 0b11
 }
 
@@ -258,7 +271,9 @@ func calculateModRM(mem *ng_operand.MemoryInfo, bitMode cpu.BitMode, regBits byt
 	}
 
 	// --- 16-bit Addressing (Table 2-1) ---
-	if bitMode == cpu.MODE_16BIT {
+	// The address size follows the address registers: [BX+SI] etc. written in
+	// 32-bit mode is 16-bit addressing (the caller emits the 67h prefix).
+	if bitMode == cpu.MODE_16BIT || is16BitAddrRegister(mem.BaseReg) || is16BitAddrRegister(mem.IndexReg) {
 		sibByte = 0 // No SIB in 16-bit mode
 		switch {
 		case mem.BaseReg == "BX" && mem.IndexReg == "SI":
